@@ -80,9 +80,19 @@ where
             sbj_complete.complete();
           },
         );
-        if *wanted.read().unwrap() {
-          *subscription.write().unwrap() = Some(sbsc);
-        } else {
+        // "still wanted?" and the store are one step under the slot's lock: a last
+        // subscriber leaving on another thread either has said so already, or finds the
+        // subscription in the slot when it gets the lock
+        let late = {
+          let mut slot = subscription.write().unwrap();
+          if *wanted.read().unwrap() {
+            *slot = Some(sbsc);
+            None
+          } else {
+            Some(sbsc)
+          }
+        };
+        if let Some(sbsc) = late {
           // the last subscriber left while the source was being subscribed
           sbsc.unsubscribe();
         }
